@@ -84,6 +84,7 @@ def run_unit(unit, fn_override=None, canary_expect=None):
     res['paths'] = eng.paths
     res['solver_s'] = round(eng.solver_time, 3)
     res['wall_s'] = round(time.time() - t0, 3)
+    res['rechecked'] = dict(eng.rechecked)
     res['inlined'] = sorted(eng.inlined_seen)
     res['summaries_used'] = sorted(eng.summaries_used)
     from . import builtins as B
@@ -231,6 +232,7 @@ def check_property(prop, modname, tier='quick', native=None, workers=None, extra
                          'solver_s': r.get('solver_s'), 'wall_s': r.get('wall_s'),
                          'inlined_helpers': r.get('inlined', []),
                          'callee_contracts_used': r.get('summaries_used', []),
+                         'second_solver_recheck': r.get('rechecked', {}),
                          'error': r['error'], 'notes': u.notes, 'slices': u.slices})
     # baseline comparison: every accepted obligation must still be generated
     missing = []
